@@ -60,7 +60,20 @@ def pools(ctx):
     return out
 
 
+def run_parts(ctx):
+    import glob, importlib, os
+    here = os.path.dirname(os.path.abspath(__file__))
+    for f in sorted(glob.glob(os.path.join(here, "parts", "*.py"))):
+        name = os.path.basename(f)[:-3]
+        if name.startswith("_"):
+            continue
+        fn = getattr(importlib.import_module("props.parts." + name), "c01", None)
+        if fn:
+            fn(ctx)
+
+
 def run(ctx):
+    run_parts(ctx)
     ps = pools(ctx)
     outs = ctx.impl("sv_pool", [sx([sysi, pool]) for sysi, pool in ps], shards=min(16, len(ps)))
     model_args = []
